@@ -9,6 +9,8 @@ use trv_core::evidence::{Report, Violation};
 use trv_core::inner::{CallStatus, GatedInner, InnerErr, Mode, Req};
 use trv_core::world::World;
 
+mod threads;
+
 trv_core::install_clock_seam!();
 
 #[derive(Debug, Clone, PartialEq)]
@@ -204,6 +206,26 @@ fn main() {
         rep.require_witness(w);
     }
     rep.bounds = json!({"seeds": seeds.len(), "requests_per_run": N_REQ});
+    if let Some(p) = cli.replay.clone() {
+        let v = trv_core::load_replay(&p);
+        if let Some(ch) = v["history"]["thread_schedule"].as_array() {
+            let choices: Vec<usize> = ch.iter().filter_map(|x| x.as_u64().map(|u| u as usize)).collect();
+            match threads::replay(v["config"].as_str().unwrap_or(""), &choices, v["kind"].as_str().unwrap_or("")) {
+                Some(true) => {
+                    println!("VIOLATION property=C19 replay={p}");
+                    std::process::exit(1);
+                }
+                Some(false) => {
+                    println!("replay: the recorded violation does not occur on the current tree");
+                    std::process::exit(0);
+                }
+                None => {
+                    eprintln!("MACHINERY no thread configuration with that label");
+                    std::process::exit(2);
+                }
+            }
+        }
+    }
     if let Some(p) = cli.replay {
         let v = trv_core::load_replay(&p);
         let kind = v["kind"].as_str().unwrap_or("");
@@ -214,5 +236,9 @@ fn main() {
         println!("replay: the recorded violation does not occur on the current tree");
         std::process::exit(0);
     }
+    // thread level: requests on OS threads, interleaved at the RNG mutex
+    threads::run(tier, &mut rep);
+    rep.require_witness("thread_schedules_with_preemption");
+    rep.require_witness("thread_config_with_several_outcomes");
     trv_core::finish(rep);
 }
